@@ -921,6 +921,36 @@ def fam_deps_exhaustive(rng):
     return out
 
 
+# every receiver x async x method generics x tail for the methods of an entraited trait, under every delegation kind
+def fam_trait_methods_exhaustive(rng):
+    out = []
+    recvs = ["&self", "&'a self", "self", "mut self", "&mut self", "&'a mut self", "self: &Self", "self: &'a Self", "self: Box<Self>", ""]
+    for recv in recvs:
+        for asy in ("", "async "):
+            for mg in ("", "<T>", "<T: Clone, const N: usize>"):
+                for tail in (";", " where Self: Sized;", " { unimplemented!() }"):
+                    g = mg
+                    if "'a" in recv:
+                        g = "<'a>" if not mg else "<'a, " + mg[1:]
+                    args = ", ".join([x for x in (recv, "a: i32", "b: &str") if x])
+                    m = "%sfn m%s(%s) -> i32%s" % (asy, g, args, tail)
+                    for attr in ("", "delegate_by = ref", "delegate_by = Borrow", "FooImpl, delegate_by = Deleg", "FooImpl, delegate_by = ref"):
+                        if rng.random() < 0.5:      # half of the product, chosen by the seed
+                            out.append(Case("trait_methods_exhaustive", attr, "trait T { fn first(&self); %s fn last(&self, z: u8); }" % m))
+    return out
+
+
+# every kind of item a module can hold, before / between / after two entraited functions: the splitter must find exactly the functions
+def fam_mod_items_exhaustive(rng):
+    out = []
+    f = "pub fn f(d: &impl A, a: i32) -> i32 { a }"
+    g = "pub async fn g<D: B>(d: &D) {}"
+    for d in DECOYS:
+        for body in ([d, f, g], [f, d, g], [f, g, d], [f, d, d, g]):
+            out.append(Case("mod_items_exhaustive", "Foo", "mod m {\n" + "\n".join(body) + "\n}", tags={"expected_methods": ["f", "g"]}))
+    return out
+
+
 def build_corpus(seed, tier):
     rng = random.Random(seed)
     thorough = tier == "thorough"
@@ -941,6 +971,8 @@ def build_corpus(seed, tier):
     cases += fam_subattr_exhaustive(rng)
     cases += fam_qualifiers_exhaustive(rng)
     cases += fam_deps_exhaustive(rng)
+    cases += fam_trait_methods_exhaustive(rng)
+    cases += fam_mod_items_exhaustive(rng)
     for i, c in enumerate(cases):
         c.cid = i
     return cases
